@@ -128,9 +128,76 @@ let conf t : string =
       n ^ " open=" ^ r false ^ " close=" ^ (if sc then r true else "none") in
   String.concat " | " (List.map one (List.sort compare ms))
 
+(* seq <#modules> {module as in conf} <clock0> <#steps> <cluster> <group0> <group1> {<dt> <group index> <status ...>}:
+   which notifications the configuration and the sequence call for (threshold 2, send-interval 0, no send-once: an
+   open notification for every reply worse than OK, a close notification for an OK reply that ends an incident if the
+   module sends them), and what each renders: Tmpl.module_renders on the record Tmpl.run_notifications gives - which
+   is checked here, field by field, against the configured extras and that step's incident ("zzfields") *)
+let seq t : string =
+  let nm = next_int t in
+  let rec mods i = if i <= 0 then [] else begin
+      let name = next t in let _cls = next t in let fo = next t in let fc = next t in
+      let sc = next t = "1" in
+      let extras = read_extras t in
+      (name, fo, fc, sc, extras) :: mods (i - 1) end in
+  let ms = mods nm in
+  let clock0 = next_int t in
+  let nsteps = next_int t in
+  let cluster = next_str t in
+  let g0 = next_str t in let g1 = next_str t in
+  let cfg = List.map (fun (n, fo, fc, sc, _) ->
+      { Model.mc_name = cs n; Model.mc_open = cs fo; Model.mc_close = cs fc; Model.mc_send_close = sc }) ms in
+  let fields_extras = match ms with (_, _, _, _, e) :: _ -> e | [] -> [] in
+  let all = List.sort compare (("zzfields", "", "", true, fields_extras) :: ms) in
+  let strs e = List.map (fun (k, v) -> (k, match v with Model.VStr s -> s | _ -> [])) e in
+  let active = Hashtbl.create 4 in            (* group index -> (incident number, start clock) *)
+  let incidents = ref 0 in
+  let sent = Hashtbl.create 8 in              (* module -> notifications so far *)
+  let clock = ref clock0 in
+  let out = ref [] in
+  for step = 0 to nsteps - 1 do
+    clock := !clock + next_int t;
+    let gi = next_int t in
+    let group = if gi = 0 then g0 else g1 in
+    let status_tok = (match t.rest with x :: _ -> int_of_string x | [] -> failwith "seq: status") in
+    let mk = read_status t cluster group (Model.KStr (cs "incident")) in
+    let good = status_tok = 1 in
+    if (not (Hashtbl.mem active gi)) && status_tok > 1 then begin
+      incr incidents; Hashtbl.replace active gi (!incidents, !clock) end;
+    List.iter (fun (n, _, _, sc, extras) ->
+      let kind = if good && Hashtbl.mem active gi && sc then Some true
+                 else if (not good) && status_tok >= 2 then Some false else None in
+      match kind with
+      | None -> ()
+      | Some g ->
+        let (inc_no, start) = Hashtbl.find active gi in
+        let id = cs ("incident-" ^ string_of_int inc_no) in
+        let before = try Hashtbl.find sent n with Not_found -> 0 in
+        Hashtbl.replace sent n (before + 1);
+        (* the record the module builds for this notification, after `before` earlier ones *)
+        let note = { Model.nt_incident = { Model.inc_id = id; Model.inc_start = zs (string_of_int start ^ "000000000") };
+                     Model.nt_cluster = (match cluster with Model.KStr s -> s | _ -> []);
+                     Model.nt_group = (match group with Model.KStr s -> s | _ -> []); Model.nt_status = () } in
+        let d = match Model.run_notifications { Model.ms_extras = strs extras; Model.ms_sent = nat_of_int before } [note] with
+          | [d] -> d | _ -> failwith "run_notifications" in
+        let fields_ok = d.Model.td_extras = strs extras && d.Model.td_id = id && d.Model.td_start = note.Model.nt_incident.Model.inc_start
+                        && d.Model.td_cluster = note.Model.nt_cluster && d.Model.td_group = note.Model.nt_group in
+        let verdict =
+          if not fields_ok then "MODEL-FIELDS-DIFFER"
+          else if n = "zzfields" then "FIELDS-OK"
+          else
+            let data = mk (List.map (fun (k, v) -> (k, Model.VStr v)) d.Model.td_extras) in
+            if not (Model.wt Model.burrow_schema data) then "ILLTYPED"
+            else show (Model.module_renders Model.burrow_schema Model.all_templates cfg (cs n) g data) in
+        out := (Printf.sprintf "s%d %s %s %s" step n (if g then "close" else "open") verdict) :: !out) all;
+    if good then Hashtbl.remove active gi
+  done;
+  String.concat " | " (List.rev !out)
+
 let run (line : string) : string =
   let t = toks_of_line line in
   match next t with
   | "render" -> render t
   | "conf" -> conf t
+  | "seq" -> seq t
   | k -> failwith ("drv_tmpl: unknown case kind " ^ k)
